@@ -1,7 +1,7 @@
 """Runs operation histories on the IMPLEMENTATION (musicxml from $PYTHONPATH).  stdin: one JSON case per line
 {"type": <complex type class name>, "ops": [...], "unchecked": bool}; stdout: one JSON result per line, same order.
 ops:  ["a",name] add_child | ["w",name,i] add_child(forward=i) | ["r",k] remove k-th child of the insertion-ordered view
-      ["p",k,name] replace_child(k-th, new name) | ["f",ic] final check (required children verdict) | ["s",ic] to_string
+      ["p",k,name] replace_child(k-th, new name) | ["q",k] replace_child(k-th, new child of the SAME name) | ["f",ic] final check (required children verdict) | ["s",ic] to_string
       ["x",name] e.xml_<name> = new child | ["n",name] e.xml_<name> = None | ["t",b] e.xsd_check = b
 Observation after every op: st (ok | exception class name), pr (printed to stdout/stderr), ord / uno (child ids in the
 schema-ordered / insertion-ordered view; ids = index of the creating op), req (flattened required names) or None,
@@ -107,6 +107,12 @@ def run_case(case):
                         c = make(op[2]); c._vid = i; e.replace_child(u[op[1]], c)
                     else:
                         st = 'skip'
+                elif k == 'q':
+                    u = e.get_children(ordered=False)
+                    if op[1] < len(u):
+                        c = make(u[op[1]].name); c._vid = i; e.replace_child(u[op[1]], c)
+                    else:
+                        st = 'skip'
                 elif k == 'f':
                     r = e.child_container_tree.get_required_element_names(intelligent_choice=bool(op[1]))
                     req = [CLS2NAME.get(x, x) for x in flat(r)]
@@ -125,14 +131,16 @@ def run_case(case):
             except Exception as ex:
                 st = type(ex).__name__
         o = {'st': st, 'pr': bool(buf.getvalue())}
+        oc = []
         try:
             with contextlib.redirect_stdout(io.StringIO()):
-                o['ord'] = [c._vid for c in e.get_children(ordered=True)]
+                oc = e.get_children(ordered=True)
+                o['ord'] = [c._vid for c in oc]
         except Exception as ex:
             o['ord'] = 'EXC:' + type(ex).__name__
         u = e.get_children(ordered=False)
         o['uno'] = [c._vid for c in u]
-        o['nm'] = {c._vid: c.name for c in u}
+        o['nm'] = {c._vid: c.name for c in list(u) + list(oc)}
         o['par'] = [c._vid for c in u if c._parent is not e]
         if req is not None:
             o['req'] = req
